@@ -103,8 +103,10 @@ TRUSTED = [
 ASSUMPTIONS = [
     "payload shape: a produced CSV text is modelled by its number of lines (that is where duplicate_last_bin and the "
     "header show); its characters are compared between the two real runs by the oracle only",
-    "locality: distinct flow values do not share mutable context objects (the generated values never do; a value "
-    "yielded twice by an inner sequence and then mutated downstream is outside the model)",
+    "locality (hypothesis `Local` of the token model, Props/C10.lean section 4d): distinct flow values do not share "
+    "mutable context objects.  It is needed: on flows that violate it the real code fails the property (aliasing "
+    "cases, labels alias:ctx-shared:property-fails) exactly as the model's reference semantics predicts; under "
+    "Local the reference semantics and the value-passing loops coincide (shared_eq_loop_of_local)",
     "pipelines: every modelled element finishes the side effects of a step before its first yield, so a Sequence is "
     "modelled at the granularity of blocks (pipeStep); validated by the correspondence on 8 pipelines",
     "payload abstraction: the text of a produced CSV/LaTeX value, the points of a produced graph, and the context "
@@ -114,9 +116,11 @@ ASSUMPTIONS = [
     "is an explicit schedule (per process: the iteration from which poll() reports termination, the return code)",
     "LaTeXToPDF: selected values of one flow have pairwise different file names",
 ]
-RULE = ("per element configuration (the 10 elements with several constructor settings / selectors / inner sequences "
-        "each, 8 pipelines Sequence(E1,...,En) of them, and LaTeXToPDF / PDFToPNG once more with real converter "
-        "processes): lists A (values the element's documented rule selects, error-raising ones included) and B (values "
+RULE = ("per element configuration (the 10 elements of the statement plus GroupPlots, each with several constructor "
+        "settings / selectors / inner sequences — RenderLaTeX with string and callable select_template, select_data, "
+        "from_data; HistToGraph with make_value / get_coordinate / field_names / scale; Write with a static-context "
+        "output directory; MapGroup on groups made by the real group_plots — 10 pipelines Sequence(E1,...,En), and "
+        "LaTeXToPDF / PDFToPNG once more with real converter processes): lists A (values the element's documented rule selects, error-raising ones included) and B (values "
         "it does not select: numbers, strings, None, floats, tuples, lists, bytes, bare dicts, foreign objects, pairs "
         "with unrelated context, pairs with disabling context such as output.write/to_csv False, histograms of the "
         "wrong kind, and unselected values whose context carries the settings the element reads for selected ones: "
@@ -126,6 +130,10 @@ RULE = ("per element configuration (the 10 elements with several constructor set
         "other kind, both orders; (2) for drawn (A, B) with |A|,|B| <= 3 (1 draw per size pair in quick, 10 in "
         "thorough) ALL interleaving patterns are enumerated (exhaustive up to 3+3); (3) thorough adds random "
         "patterns with |A|,|B| <= 6.  Quick keeps a cross of the 54 RunIf selector x inner-sequence settings. "
+        "Besides: the same element object used for a second flow (also after a flow of unselected values only), and "
+        "flows whose values share objects (one context dictionary in two pairs, one object at two positions) — the "
+        "latter are outside the property (locality); they are compared with the model's reference semantics "
+        "(sharedStep/finalView) and counted (labels alias:*), not judged. "
         "Non-trivial: at least one value of A and one of B in the flow.")
 CASE_TIMEOUT = 20
 
